@@ -206,10 +206,14 @@ theorem connEnd_wp (A) (c : NetFD) (o : Own) (ran : Bool) (inv : ConnInv c o ran
   unfold connEnd
   cases ran
   · simp only [Bool.false_eq_true, if_false, bind_def, wp_bind]
-    apply finalizer_wp A c o false inv
-    intro c' o' inv' _
-    simp only [pure_def, wp]
-    exact inv'.closed_ (inv'.ran_ rfl)
+    apply wp_ask; intro b _
+    have fin : wp A (finalizer c) (fun _ o' => o' = Own.empty) o := by
+      apply finalizer_wp A c o false inv
+      intro c' o' inv' _
+      exact inv'.closed_ (inv'.ran_ rfl)
+    cases b
+    · simpa [wp, wp_bind] using fin
+    · simpa [wp, wp_bind, visit, M.bind] using fin
   · simp only [if_true, pure_def, wp]
     exact inv.closed_ (inv.ran_ rfl)
 
@@ -336,10 +340,14 @@ theorem lnEnd_wp (A) (l : Listener) (o : Own) (ran : Bool) (inv : LnInv l o ran)
   unfold lnEnd
   cases ran
   · simp only [Bool.false_eq_true, if_false, bind_def, wp_bind]
-    have : l = { fd := l.fd, file := some f, ln := some w } := by cases l; simp_all
-    rw [this, ho]
-    apply Listener.close_wp A _ f w hne
-    simp [wp]
+    have hl : l = { fd := l.fd, file := some f, ln := some w } := by cases l; simp_all
+    have cl : wp A (Listener.close l) (fun _ o' => o' = Own.empty) o := by
+      rw [hl, ho]
+      apply Listener.close_wp A _ f w hne
+      rfl
+    apply wp_ask; intro b _; cases b
+    · simpa [wp, wp_bind] using cl
+    · simpa [wp, wp_bind, visit, M.bind] using cl
   · simp only [if_true, pure_def, wp]
     rw [ho]; exact lnOwn_closed f w (hr rfl).1 (hr rfl).2
 
